@@ -18,6 +18,7 @@ ORACLES = {
     'partial-request-cancel': ('c10', 'partial_cancel_oracle', 'partial_case', 40),
     'lease-queue-across-reconnect': ('c10', 'lease_reconnect_oracle', 'lease_reconnect_case', 9),
     'failing-source-wire': ('c08', 'failing_source_oracle', 'failing_source_case', 36),
+    'second-connection-keepalive': ('c15', 'second_connection_oracle', 'second_connection_case', 3),
     'endpoint-reads': ('c04', 'endpoint_reads_battery', 'kind', 100),
 }
 
